@@ -127,6 +127,11 @@ def scenario(c, d, runs=None):
     if c.get("needs_prefix"):
         # the module writes its own restart / output files (restartfreq): give them a place
         L.append("prefix %sout" % pre)
+    if runs is None:
+        # what the configuration alone gives: the state written before the first step
+        # (by a job that starts after the last step of the history, so that step stamps count as run-time data too)
+        cz = dict(c); cz["it0"] = c.get("it0", 0) + T + 1
+        L += begin_lines(cz, "Z", pre) + ["save text %sZ.colvars.state" % pre]
     for run in (runs or plan(c)):
         if run[0] == "U":
             L += begin_lines(c, "U", pre)
@@ -294,6 +299,17 @@ def state_tokens(path):
         for t in w[start:]:
             out.append((ctx, t))
     return out
+
+
+def state_fields(path):
+    """text state -> {context keyword: tuple of its tokens, in order of appearance}"""
+    toks = state_tokens(path)
+    if toks is None:
+        return None
+    d = {}
+    for k, t in toks:
+        d.setdefault(k, []).append(t)
+    return {k: tuple(v) for k, v in d.items()}
 
 
 def diff_states(pa, pb, tol=TOL):
